@@ -433,6 +433,9 @@ class Ref:
             return r
 
     def prim(self, op, a):
+        if op in ("+", "-", "*", "<", "inc", "dec") and not all(isinstance(x, int) for x in a):
+            # only reachable under a defect model that reorders a def and a typed read of the same Var
+            raise Throw("TypeError")
         if op == "+":
             return a[0] + a[1]
         if op == "-":
@@ -482,6 +485,7 @@ class Gen:
         self.allow_def = allow_def
         self.allow_icall = allow_icall
         self.globals = {}  # name -> type (defined so far, straight-line)
+        self.gtypes = {}
         self.budget = 60
         self.param_names = set()
 
@@ -508,15 +512,17 @@ class Gen:
 
     def program(self):
         self.globals = {}
+        self.gtypes = {}  # name -> type for the whole program: every def of a name gives it a value of the same type
         self.param_names = set()
         forms = []
         env = {}
         if self.allow_def and self.r.random() < 0.3:
             for _ in range(self.r.randint(1, 2)):
                 g = self.r.choice(GLOBAL_NAMES)
-                ty = self.r.choice(["int", "any", "fn1"])
+                ty = self.gtypes.get(g) or self.r.choice(["int", "any", "fn1"])
                 forms.append(("def", g, self.expr(ty, env, 2)))
                 self.globals[g] = ty
+                self.gtypes[g] = ty
         forms.append(self.expr("any", env, self.max_depth))
         if len(forms) == 1:
             return forms[0]
@@ -585,7 +591,8 @@ class Gen:
                 # a def in value position (if branch, argument, last body form, ...): its value is the Var
                 g = r.choice(GLOBAL_NAMES)
                 if g not in env:
-                    t = self.globals.get(g) or r.choice(["int", "any"])
+                    t = self.gtypes.get(g) or r.choice(["int", "any"])
+                    self.gtypes[g] = t
                     return ("def", g, self.expr(t, env, d - 2))
             return ("const", r.choice(CONSTS_ANY))
         if ty == "vec":
@@ -716,7 +723,8 @@ class Gen:
             g = r.choice(GLOBAL_NAMES)
             if g not in env:
                 had = g in self.globals
-                t = self.globals[g] if had else r.choice(["int", "any"])
+                t = self.gtypes.get(g) or r.choice(["int", "any"])
+                self.gtypes[g] = t
                 d_expr = ("def", g, self.expr(t, env, d - 2))
                 self.globals[g] = t
                 cont = self.expr(ty, env, d - 1, tail)
